@@ -21,6 +21,8 @@ THEOREMS = [
     "enum_covered", "table_edges_eq_doc", "table_flags_eq_doc", "step_ok_iff", "finals_absorbing",
     "non_owner_rejected", "recovery_overrides", "history_is_path", "starts_registered",
     "every_status_reachable", "setStatus_err_unchanged", "setStatus_ok_writes",
+    # Props/C01Scan.lean: the status index beside read-side scans (writers of the index read from the source by translate/indexscan.py)
+    "scan_inv_step", "scans_move_nothing", "repairing_scan_loses_the_invocation", "code_scans_only_read",
 ]
 
 FINALS = {"SUCCESS", "FAILED", "CONCURRENCY_CONTROLLED_FINAL"}
@@ -145,7 +147,7 @@ def scans_during_a_transition(ctx: Ctx) -> None:
 
             n0 = len([c for c in run_one(PrefixChooser([0] * 5000)).choices if c == 0])
             n1 = len([c for c in run_one(PrefixChooser([1] * 5000)).choices if c == 1])
-            plans = [[0] * k + [1] * 5000 for k in range(n0 + 1)] + [[1] * k + [0] * 5000 for k in range(0, n1 + 1, 1 if not ctx.quick else max(1, n1 // 25))]
+            plans = [[0] * k + [1] * 5000 for k in range(n0 + 1)] + [[1] * k + [0] * 5000 for k in range(0, n1 + 1, max(1, n1 // (25 if ctx.quick else 120)))]
             for plan in plans:
                 run = run_one(PrefixChooser(plan))
                 n += 1
@@ -169,7 +171,14 @@ def scans_during_a_transition(ctx: Ctx) -> None:
 def run(ctx: Ctx) -> None:
     from pynenc.invocation.status import InvocationStatus as S, InvocationStatusRecord, status_record_transition
 
-    lean_stage(ctx, tr.gen, THEOREMS)
+    def gen() -> dict[str, str]:
+        from harness.translate import indexscan
+
+        g = tr.gen()
+        g.update(indexscan.gen())
+        return g
+
+    lean_stage(ctx, gen, THEOREMS)
     doc_edges = set(tr.doc_graph()[0])
     drv = LeanDriver()
     statuses = list(S)
